@@ -124,7 +124,7 @@ def same_slot(parts, a, b):
   return a is not None and b is not None and tuple(parts[a][:2]) == tuple(parts[b][:2])
 
 
-def judge(ctx, parts, f, r, route, order_desc, zero_below=None, default=0.0):
+def judge(ctx, parts, f, r, route, order_desc, zero_below=None, default=0.0, admit=None):
   """Returns the index of the range that supplied the value (or None) after checking it."""
   try:
     v, d1, d2 = f(r), f.deriv(r), f.deriv2(r)
@@ -137,6 +137,8 @@ def judge(ctx, parts, f, r, route, order_desc, zero_below=None, default=0.0):
   cand = R.select_range_candidates(plain, R.F(r))
   if zero_below is not None and r <= zero_below:
     cand = []
+  if admit is not None and not admit(r):
+    cand = []      # an enclosing range does not admit r: nothing inside it acts
   if not cand:
     if not (v == default and d1 == 0 and d2 == 0):
       ctx.violation("below_first_range", "r=%r below every range: value=%r deriv=%r deriv2=%r, expected %r 0 0 (route %s, order %s)" % (r, v, d1, d2, default, route, order_desc), what="below_first_range")
@@ -256,9 +258,24 @@ def run_case(case, ctx):
       if judge(ctx, shift, fb, r, "api-shared-definition-objects", "second form") in ("err", "bad"):
         return
       ctx.count("shared_definition_points")
+  # ---------------- a LONE range around the whole multi-range potential (what potable's single-argument sum() is): the
+  # outer range admits r or it does not, with its own marker - also when it starts exactly where the inner one does
+  smin = min(s_ for _, s_, _ in parts)
+  inner = create_Multi_Range_Potential_Form(*mk(parts, range(n)))
+  for mo, so in [(">", smin), (">=", smin), (">", smin - 0.5), (">=", smin + 0.5), (">", pts[len(pts) // 2])]:
+    fo = create_Multi_Range_Potential_Form(Multi_Range_Defn(mo, so, inner))
+    adm = (lambda r_, so=so: r_ > so) if mo == ">" else (lambda r_, so=so: r_ >= so)
+    for r in eval_orders(sorted(set(pts) | set([so, math.nextafter(so, math.inf), math.nextafter(so, -math.inf)])), rng)[:80]:
+      if judge(ctx, parts, fo, r, "api-lone-range-around-multi-range", "outer %s%r" % (mo, so), admit=adm) in ("err", "bad"):
+        return
+      ctx.count("lone_outer_range_points")
   # ---------------- potable route: all listings of this set in one file; the first part may omit '>0'
   lines = []
   metas = []
+  listing0 = " ".join("%s%s as.polynomial %s" % (m, fnum(s_), " ".join(fnum(x) for x in c)) for m, s_, c in parts)
+  lines.append("N0-X : sum(%s)" % listing0)
+  lines.append("N1-X : >=%s sum(%s)" % (fnum(smin), listing0))
+  lines.append("N2-X : >%s product(%s)" % (fnum(smin), listing0))
   for k, perm in enumerate(perms):
     toks = []
     for j, i in enumerate(perm):
@@ -300,6 +317,11 @@ def run_case(case, ctx):
       if winners.setdefault(r, w) != w and not same_slot(parts, w, winners[r]):
         ctx.violation("order_dependence", "r=%r: potable listing %s selects range %s, other listings %s" % (r, list(perm), w, winners[r]), what="order_dependence")
         return
+  for key, adm in (("N0", lambda r_: r_ > 0), ("N1", lambda r_: r_ >= smin), ("N2", lambda r_: r_ > smin)):
+    for r in eval_orders(sorted(set(pts) | set([0.0, smin])), rng)[:80]:
+      if judge(ctx, parts, pots[key], r, "potable-single-argument-modifier", key, admit=adm) in ("err", "bad"):
+        return
+      ctx.count("lone_outer_range_points")
   qparts = [[">", 0.0, c0]] + extra
   fq = pots["Q"]
   for r in eval_orders(pts, rng):
